@@ -883,7 +883,8 @@ func (sema *ExprSemanticsChecker) checkFuncCall(n *FuncCallNode) ExprType {
 		errs = append(errs, err)
 	}
 
-	// All candidates failed
+	// All candidates failed. Availability of the function does not depend on its arguments
+	sema.checkSpecialFunctionAvailability(n)
 	sema.errs = append(sema.errs, errs...)
 
 	return AnyType{}
